@@ -5,7 +5,7 @@ from . import servers
 def run(tier, seed, replay):
     def nontrivial(c):
         return any(s in ("..", "", ".", "%2e%2e", "%2f") for s in c["segs"])
-    rule = ("TLC enumerates every sequence of up to MaxSegs path segments over 13 classes (names inside the root, '.', '..', empty, "
+    rule = ("TLC enumerates every sequence of up to MaxSegs path segments over 16 classes (sequences of 5 over 10 core classes; plus 147 requests with an ABSOLUTE component after 0..3 empty segments; names inside the root, '.', '..', empty, "
             "%2e%2e, %2f, canary names, 'root', 'parent') x mounts (folder at /, folder at /pre/, tar at /tar/); each is sent as a raw "
             "request target to the real binary; the response body identifies which file (inside / outside the root) was served; TLC judges "
             "with the path-walk model. non-trivial = path with '..', '.', empty or percent-encoded segment")
